@@ -6,6 +6,8 @@ from harness.core import Case
 from harness import clientlib as cl
 from harness.callreg import invocations
 
+WIDE = 200000        # thorough tier: histories of the wide correspondence stream (widegen.py), judged by the model and the generic rule
+WIDE_QUICK = 2000
 PROP = 'C06'
 EXHAUSTIVE = True
 RULE = ('every modelled client entry point x code 0x00..0xFF x k in {0,1,3} pending frames x tail in {"", 00, FF01} x '
